@@ -537,8 +537,8 @@ def run_topology(ck, c):
         else:
             cells.append(["B", 0])
     inputs = [(toks[n], i) for i, (n, _) in enumerate(conns + coords)]
-    line = sx(["@V", cells, [[GV[n], 0 if as_list else 1, len(conns) + i] for i, (n, _) in enumerate(coords)],
-               0 if conn_list else 1, [[GV[n], i] for i, (n, _) in enumerate(conns)],
+    line = sx([cells, [[GV[n], 0 if as_list else 1, len(conns) + i] for i, (n, _) in enumerate(coords)],
+               [[GV[n], i] for i, (n, _) in enumerate(conns)],
                1 if np.dtype(c["dtype"]) == np.dtype(np.intp) else 0, fv, si, [list(p) for p in inputs]])
     return res, ("topology", line)
 
@@ -631,7 +631,7 @@ def run_ugrid(ck, c):
     # ---- model ----
     conn_names = [GV["face_node_connectivity"]] + ([GV["edge_node_connectivity"]] if c.get("edge_conn") else [])
     # the reader standardises in the order of ugrid.CONNECTIVITY_NAMES: face_node first, edge_node later
-    line = sx(["@V", cells, root, conn_names, 1 if dt_std else 0, [list(p) for p in inputs]])
+    line = sx([cells, root, conn_names, 1 if dt_std else 0, [list(p) for p in inputs]])
     return res, ("ugrid", line)
 
 
@@ -695,7 +695,7 @@ def run_adopt(ck, c):
     if res.get("report_changed_after_use") and res["report_changed_after_use"] != res["report_changed"]:
         ck.fail("input_modified_by_use", c, {"constructor": "Grid.__init__", "adopted": bool(res.get("adopted"))},
                 detail="later use of the grid changed the caller's dataset: %s" % res["report_changed_after_use"])
-    line = sx(["@V", cells, root, [list(p) for p in inputs], [GV["node_lon"]]])
+    line = sx([cells, root, [list(p) for p in inputs], [GV["node_lon"]]])
     return res, ("adopt", line)
 
 
@@ -904,7 +904,7 @@ def run_copy(ck, c):
     if res["changed"]:
         ck.fail("copy_not_independent", c, {"path": c["path"], "shares_ds": bool(res["shares_ds"])},
                 detail="%s on the %s changed the other grid: %s" % (c["mutator"], "original" if c["side"] == 0 else "copy", res["diff"]))
-    line = sx(["@V", cells, root, c["side"], ops])
+    line = sx([cells, root, c["side"], ops])
     return res, ("copy", line)
 
 
@@ -1022,7 +1022,7 @@ def run_export(ck, c):
                 detail="caller edit %s of the exported dataset changed what the Grid reports: %s" % (c["edit"], res["diff"]))
     if fmt == "ugrid":
         # the model is given the heap as it is before the last export call
-        line = sx(["@V", cells, root, 1, ops])
+        line = sx([cells, root, 1, ops])
         return res, ("export_ugrid", line)
     line = sx([cells, root, FMT_ID["export_" + fmt], ops])
     return res, ("export_table", line)
@@ -1119,7 +1119,9 @@ def run_geo(ck, c):
         ck.fail("export_edit_changes_grid", c,
                 {"export": c["export"], "returns_cached_object": bool(res["same_object"])},
                 detail="after the caller's edit (%s) the next %s call reports other geometry" % (c["edit"], c["export"]))
-    line = sx(["@V", [["B", 1, 2, 3]], 0])
+    # Grid.to_geodataframe hands out the cached frame (variant 0; a copying repair = variant 1 is
+    # accepted too); the two matplotlib exports return deep copies
+    line = sx(["@V" if c["export"] == "to_geodataframe" else 1, [["B", 1, 2, 3]], 0])
     return res, ("export_geo", line)
 
 
@@ -1313,30 +1315,27 @@ def extraction_audit(ck, results):
         return 0
     exprs = []
     for c, line in sample:
-        v = common.parse_sx(line.replace("@V", "0"))
-        _, cells, coords, cia, conns, dts, fv, si, inputs = v
+        v = common.parse_sx(line)
+        cells, coords, conns, dts, fv, si, inputs = v
         h = coq_list([["B"] + (x[1:] if isinstance(x, list) else []) for x in cells], coq_cell)
         co = coq_list(coords, lambda t: "(%s, (%s, %d%%nat))" % (coq_z(t[0]), "true" if t[1] else "false", t[2]))
         cn = coq_list(conns, lambda t: "(%s, %d%%nat)" % (coq_z(t[0]), t[1]))
         inp = coq_list(inputs, lambda t: "(%s, %d%%nat)" % (coq_z(t[0]), t[1]))
         fvs = "None" if fv is None else "(Some %s)" % coq_z(fv)
-        exprs.append("Eval vm_compute in (let h := %s in match c19_from_topology h %s %s %s %s %s %s with "
-                     "Some (h', g) => Some (c19_modified h h' %s, c19_alias_table h' g %s) | None => None end)."
-                     % (h, co, "true" if cia else "false", cn, "true" if dts else "false", fvs, coq_z(si), inp, inp))
+        exprs.append("Eval vm_compute in (let h := %s in let '(h', g) := c19_from_topology h %s %s %s %s %s in "
+                     "(c19_modified h h' %s, c19_alias_table h' g %s))."
+                     % (h, co, cn, "true" if dts else "false", fvs, coq_z(si), inp, inp))
     rc, out = ck.audit_vm(exprs, "From Verif Require Import Base C19.\nOpen Scope Z_scope.")
     if rc != 0:
         ck.proof["errors"].append("in-kernel audit failed: " + out[-800:])
         return 0
     blocks = re.split(r"(?m)^\s*= ", out)[1:]
-    ml = ck.run_model("topology", [l.replace("@V", "0") for _, l in sample])
+    ml = ck.run_model("topology", [l for _, l in sample])
     n = 0
     for b, mo in zip(blocks, ml):
         body = b.split("\n     :")[0]
         nums = re.findall(r"-?\d+", body)
-        if mo == ["RAISES"]:
-            flat = []
-        else:
-            flat = [str(x) for x in mo[0]] + [str(x) for p in mo[1] for x in p]
+        flat = [str(x) for x in mo[0]] + [str(x) for p in mo[1] for x in p]
         if nums != flat:
             ck.proof["errors"].append("extraction audit mismatch: kernel %s vs extracted %s" % (nums[:30], flat[:30]))
         n += 1
